@@ -7,7 +7,7 @@ RULE = ("a real rustls client inside the scripted transport: the plaintext SSL r
         "ClientHello coalesced behind it for EVERY k in 0..40 and a sample up to the whole hello, with the first delivery cut "
         "into reads of 1, 2, 3 .. bytes and the later ciphertext in reads of 1 / 7 / 64 / everything; with and without client "
         "certificates; TLS configured or not; shim accepting or rejecting; commands (queries, prepared statements) after the "
-        "handshake; oracle: the handshake completes, every server byte after the greeting is a well-formed TLS record, the user "
+        "handshake, incl. replies of 10^4..10^5 bytes in thousands of small packets (larger than the engine's send buffer); oracle: the handshake completes, every server byte after the greeting is a well-formed TLS record, the user "
         "name of the encrypted handshake response and the certificate chain reach after_authentication, the decrypted replies "
         "and the callback log equal the model's plaintext run, a TLS request without configuration is refused before "
         "after_authentication; non-trivial = every case; distinct = distinct case text")
@@ -100,6 +100,14 @@ def run(ctx):
         for sp, ch in ((100000, "*"), (100000, [4096]), (3000, [1000, 3]), (0, "*")):
             n += 1
             cases.append(mk("c18_%d" % n, bighello=big, split=sp, chunks=ch, cmds=cmdsets[1], scripts=scripts, clientcert=rng.randint(0, 1)))
+    # replies much larger than the TLS engine's send buffer (64 KiB in rustls), made of many small packets so
+    # that the buffer limit is met at arbitrary offsets inside and between packets: served as over plaintext
+    for nrows, width in ((2500, 4), (3000, 36), (1500, rng.randint(1, 60)), (6000, rng.randint(1, 20))):
+        n += 1
+        rows = " ".join("wr 1 s:%s p" % hexspec(bytes(rng.choice(b"abcdefgh") for _ in range(width))) for _ in range(nrows))
+        big = ["q start 1 %s %s fin" % (col(b"a", 253, 0), rows), "q done 1 2"]
+        cases.append(mk("c18_%d" % n, cmds=[("query", cmd_query(b"big")), ("ping", cmd_ping()), ("query", cmd_query(b"after"))],
+                        scripts=big, chunks=rng.choice(["*", [64]]), clientcert=0))
     for lim in (64, 300):
         n += 1
         cases.append(mk("c18_%d" % n, lim=lim, cmds=cmdsets[2], scripts=scripts, chunks=[5]))
